@@ -64,3 +64,7 @@ Lemma bytes_eqb_sym a b : bytes_eqb a b = bytes_eqb b a.
 Proof.
   destruct (bytes_eqb_spec a b), (bytes_eqb_spec b a); congruence.
 Qed.
+
+(* stable names for extraction *)
+Definition byte_of_N (n : N) : option byte := Byte.of_N n.
+Definition byte_to_N (b : byte) : N := Byte.to_N b.
